@@ -49,6 +49,42 @@ CLAIMED['C09'] = dict(
         'correspondence); harness; IEEE doubles compared through their order-preserving bit image. No axioms.',
    technique='Coq proof (min/max folds, farthest-point circle for an abstract metric) + in-Coq correspondence; fixed corpora for unclaimed clauses',
    ref='5/C09')
+CLAIMED['C01'] = dict(
+   text='Machine-checked proof over arbitrary integer rings (hence rational coordinates, by scaling) that the model of _point_in_polygon / '
+        'find_line_intersection / contains_coordinate decides exactly: strictly inside the outer ring (even-odd crossing number cast EAST, '
+        'independent of the code westward ray and vertex rules; parity lemma for closed chains) and in no hole; outer boundary excluded, polygon-hole '
+        'boundary included, boxes inclusive minus holes; answers invariant under rotation, reversal, re-closing and constructor normalisation; '
+        'bounding-box prefilter never changes an answer. The box-hole boundary clause is REFUTED (finding D31). Tied to the code by an in-Coq '
+        'correspondence on exhaustive grid / half-grid queries (all rotations and windings in thorough), random star polygons, direct '
+        'find_line_intersection cases, plus an independent exact Fraction even-odd oracle on every query.',
+   note='Trusted: Coq kernel + vm_compute; hand statement that GeomM mirrors the loops (checked by correspondence); harness. Not proved: polygonal Jordan '
+        '(even-odd interior of a simple ring = topological interior); IEEE rounding / 1e-10 snapping off the exact grids; antimeridian-spanning shapes '
+        '(excluded by the property). No axioms.',
+   technique='Coq proof (exact-arithmetic ray cast = even-odd crossing number; parity lemma; rotation/reversal invariance) + in-Coq correspondence on exhaustive grids',
+   ref='5/C01, 9')
+CLAIMED['C02'] = dict(
+   text='PARTIAL. Machine-checked proof that the sweep line (do_edges_intersect, modelled with its event ordering, active set and same-group shortcut) returns '
+        'exactly the brute-force "some edge pair intersects" for ALL edge lists and never raises; that a hit means non-parallel segments sharing a rational '
+        'point; that intersects_shape/contains_shape for polygon/box/linestring/point are the edge-pair disjunct plus first-vertex fallbacks, symmetric for '
+        'all 16 kind pairs, contains => intersects, independent of time bounds, never raise for valid shapes; linestring containment = contiguous sub-list; '
+        'a True intersection always has a witness point in both closed sets (soundness half of set truth); the edge-crossing disjunct is invariant under '
+        'rotation/reversal. REFUTED and recorded as findings: boundary points / segment-interior points / polygon around a hole (D5a-c), vertex-order '
+        'dependence of the first-vertex fallback for collinear paths (D29). The converse of set truth is not claimed (polygonal Jordan).',
+   note='Trusted: Coq kernel + vm_compute; SweepM/PairM mirror the code (checked by correspondence: direct do_edges_intersect stream, all ordered pairs of a 70-shape '
+        'library x dt combinations x rotations, random valid pairs); GeomM tie from C01. IEEE rounding and antimeridian edges outside the model. No axioms.',
+   technique='Coq proof (sweep invariant = brute force; symmetry; sub-list spec) + in-Coq correspondence + Python law oracle; closed-set reference on a fixed corpus only',
+   ref='5/C02, 9')
+CLAIMED['C18'] = dict(
+   text='Machine-checked proof that each collection filter is List.filter of the per-shape predicate the code uses (argument order pinned: filter_contains uses '
+        'x.contains(q), filter_contained_by uses q.contains(x); instants by equality, intervals by intersection; KeyError iff a member lacks the property key), '
+        'returns the same collection type (Track stays chronological), preserves order (sublist), that collection bounds are the componentwise min/max of member '
+        'bounds, and that len/iter/in/+/[] behave as the underlying list; per-shape predicates universally quantified. Tied to the code by an in-Coq '
+        'correspondence instantiating the predicates with the implementation own per-member answers on FeatureCollections and Tracks of 0..12 mixed shapes, '
+        'with asymmetric containment pairs and deep snapshots of the source before/after.',
+   note='Trusted: Coq kernel + vm_compute; FilterM mirrors the comprehensions (correspondence only); harness. Hull containment is relative to C10 (explicit premise). '
+        'Source non-mutation is observed by the correspondence, not a theorem (the model is pure). No axioms.',
+   technique='Coq proof (filters = List.filter, sublist, min/max) + oracle-instantiated in-Coq correspondence',
+   ref='5/C18, 9')
 NOT_YET = {}
 NA = {
  'C20': 'The observable is the composition of three third-party codecs (pyshp binary I/O, GeoPandas/GEOS, fastkml XML); '
